@@ -22,6 +22,14 @@ CLAIMS = {
   text="Read-your-writes proved in Coq by refinement to a last-write-wins map for the single-value/multi-type cached map (all op sequences x arbitrary placement of commits, per-key un-pin notifications and evictions of unpinned entries, under 'writes to one key are issued in epoch order', shown necessary) and for the key-to-set map (any spill threshold, staging log modelled as a binary max-heap array) in the variant the tree now implements after the two fix: commits; the pre-fix code is refuted by machine-checked witnesses that are replayed on the real code on every run to decide which variant applies. Fill races (F8 and a set variant) are refuted in the model, reproduced deterministically on the real code and recorded as known findings.",
   note="Trusted: Coq kernel; hand-written models (tie = correspondence run with background steps placed by a gated in-memory database, capacities 1/2/8, real set sizes across 1024); eviction policy abstracted to 'any unpinned entry may vanish' (C16); commit in epoch order taken from C10; intra-call interleavings covered only by the two-step fill model and a stress run (H-atomic).",
   tech="machine-checked proof in Coq (inductive invariant / refinement, vm_compute refutations) + differential correspondence + deterministic witness replay"),
+ "C11": dict(
+  text="Proved in Coq: the physical key scheme of both backends is injective (both layouts, Fjall's empty-key padding) given prefix-free part codes, which the serializer's codes are (derived from the C12 round-trip theorem); member keys isolate set keys for arbitrary byte strings; the RocksDB scan bound selects exactly the keys with the prefix (the all-0xFF branch proved unreachable); over an ordered byte-map store, point reads, member scans (exact, duplicate-free), batch atomicity and invisibility of uncommitted batches refine a last-write-wins reference for every session. Real RocksDB and Fjall are validated differentially on every run: every read against a reference map and the model, and the raw on-disk keys/values byte for byte against the model, including close+reopen and a concurrent-reader atomicity probe.",
+  note="Trusted: Coq kernel; hand-written Kv/Model.v (tie = read results + raw directory dump on both backends); the third-party engines themselves (atomic batch write, bytewise order, prefix extractor/bloom filters, durability across close with WAL off) are H-backend: tested, not proved; column kind assumed a function of column id; keys beyond Fjall's 64 KiB key limit excluded; prefix-freeness inherits the C12 model and its hash hypothesis for interned handles.",
+  tech="machine-checked proof in Coq (algebraic injectivity/isolation lemmas + refinement of an ordered byte map to a reference map) + differential validation of RocksDB/Fjall against the model and a reference map"),
+ "C16": dict(
+  text="Pinned-never-evicted, readable-until-evicted (refinement to a reference map with eviction events), residency bound max_capacity + |Pinned region| + 32, region accounting and totality proved in Coq for all operation sequences, every capacity/strategy, any pin predicate and any frequency sketch. Totality is refuted for the original Policy::unpin (F4, witness replayed on the code on every run) and proved for the repair now committed. Lock-table corollary for pin = 'refcount > 1'. The model is tied to the code on every run by an exact differential (per-op result + evicted set, final resident map; exact sketch with FxHash) over ~10^5 (quick) / ~2*10^6 (thorough) ops. Multi-threaded use and the lock-table pattern are judged by the property oracle only.",
+  note="Trusted: Coq kernel; hand-written Lfu/Model.v (single-threaded Piggyback semantics); scc entry_sync exclusivity. The bound uses the Pinned region length (entries wait there until notified or trimmed). The +32 slack is single-threaded only. QueryLockManager is private, so its exact pattern is exercised on TinyLFU directly.",
+  tech="machine-checked proof in Coq (invariant by induction over operation sequences, oracle-parametric) + exact differential check of model vs code + property oracle + multi-threaded stress"),
 }
 
 def entry(pid, c):
